@@ -826,13 +826,45 @@ func checkLtRewriteGate(p *Program, r *Report, rule string) {
 		r.Undec(rule, cn, "", "anchor not found")
 		return
 	}
+	var hasWrite func(f *ssa.Function, depth int) bool
+	hasWrite = func(f *ssa.Function, depth int) bool {
+		if f == nil || f.Blocks == nil || depth > 2 {
+			return false
+		}
+		for _, b := range f.Blocks {
+			for _, in := range b.Instrs {
+				c, ok := in.(*ssa.Call)
+				if !ok {
+					continue
+				}
+				if len(c.Common().Args) == 2 {
+					if k, ok := constString(c.Common().Args[1]); ok && k == "&lt;" {
+						return true
+					}
+				}
+				if g := staticCallee(c.Common()); g != nil && g != f && g.Pkg == fn.Pkg && hasWrite(g, depth+1) {
+					return true
+				}
+			}
+		}
+		return false
+	}
 	var writes []*ssa.BasicBlock
 	for _, b := range fn.Blocks {
 		for _, in := range b.Instrs {
-			if c, ok := in.(*ssa.Call); ok && len(c.Common().Args) == 2 {
+			c, ok := in.(*ssa.Call)
+			if !ok {
+				continue
+			}
+			if len(c.Common().Args) == 2 {
 				if k, ok := constString(c.Common().Args[1]); ok && k == "&lt;" {
 					writes = append(writes, b)
+					continue
 				}
+			}
+			// the rewrite may live in a helper of the rewriter: reaching the call counts
+			if g := staticCallee(c.Common()); g != nil && g.Pkg == fn.Pkg && !strings.HasPrefix(g.Name(), "escape") && hasWrite(g, 0) {
+				writes = append(writes, b)
 			}
 		}
 	}
